@@ -88,11 +88,6 @@ theorem N2_st_getComponent (hc : c * c = 2) (h2 : (2:K) ≠ 0) (a : Fin 6 → Fi
     gen% (Gen.N2_st_getComponent_all c c3 fn) | a 4 4
       = T4.comps pairs2 (T4.ofST c (rm mS2 mS2 a)) := by
   t4_eq hc
-/-- `st2tost2::convert(D)`: restriction of `D` to symmetric arguments, `(D_ijkl + D_ijlk)/2` -/
-theorem N2_st_convert_from_t2tost2 (hc : c * c = 2) (h2 : (2:K) ≠ 0) (a : Fin 6 → Fin 9 → K) :
-    pad2_66 (gen% (Gen.N2_st_convert_from_t2tost2_all c c3 fn) | a 4 5)
-      = rows66 (T4.stoST c (T4.symR (T4.ofTS c (rm mS2 mT2 a)))) := by
-  t4_eq hc
 /-- `t2tost2 * st2tot2` -/
 theorem N2_st_comp_ts_s2t (hc : c * c = 2) (h2 : (2:K) ≠ 0) (a : Fin 6 → Fin 9 → K) (b : Fin 9 → Fin 6 → K) :
     pad2_66 (gen% (Gen.N2_st_comp_ts_s2t_all c c3 fn) | a 4 5 | b 5 4)
